@@ -432,6 +432,153 @@ fn huge_ttl_is_just_a_long_ttl() {
     });
 }
 
+/// C01/C20: a cost is any i64; the largest ones must be refused as oversize (new key) or charged (update of the only entry),
+/// not wrap around or kill the processor
+#[test]
+fn huge_cost_is_just_an_oversize_entry() {
+    if !only("huge_cost_is_just_an_oversize_entry") { return; }
+    guarded("huge_cost_is_just_an_oversize_entry", || {
+        for (name, cost) in [("i64::MAX", i64::MAX), ("i64::MAX - 10", i64::MAX - 10)] {
+            let script = format!("Cache(max_cost=1000, internal cost on); insert(1, 10, {}); wait(); insert(2, 20, 1); wait(); get(1); get(2)", name);
+            let (tx, rx) = std::sync::mpsc::channel::<String>();
+            std::thread::spawn(move || {
+                let c: Cache<u64, u64, TransparentKeyBuilder<u64>> = Cache::builder(200, 1000)
+                    .set_key_builder(TransparentKeyBuilder::<u64>::default()).finalize().unwrap();
+                let r = std::panic::catch_unwind(std::panic::AssertUnwindSafe(|| {
+                    c.insert(1, 10, cost); let w1 = c.wait().is_ok();
+                    c.insert(2, 20, 1); let w2 = c.wait().is_ok();
+                    let g1 = c.get(&1).map(|v| *v.value()); let g2 = c.get(&2).map(|v| *v.value());
+                    let used = c.policy.max_cost() - c.policy.cap();
+                    (w1, w2, g1, g2, used >= 0 && used <= 1000)
+                }));
+                let msg = match r {
+                    Err(_) => "the caller panicked".to_string(),
+                    Ok((true, true, None, Some(20), true)) => "ok".to_string(),
+                    Ok(x) => format!("(wait, wait, get(1), get(2), 0 <= used <= max_cost) = {:?}", x),
+                };
+                let _ = tx.send(msg);
+                let _ = c.close();
+            });
+            let verdict = rx.recv_timeout(Duration::from_secs(10)).unwrap_or_else(|_| "no answer within 10 s: the processor is gone and wait() blocks for ever".to_string());
+            if verdict != "ok" {
+                fail("huge_cost_is_just_an_oversize_entry", "C20:glue.internal-cost.no-overflow", &["C20", "C01", "C16"], "CacheProcessor::calculate_internal_cost", script, verdict,
+                     "(true, true, None, Some(20), true): the oversize entry is refused, the worker is alive, the charged total stays within max_cost".into());
+                return;
+            }
+        }
+    });
+}
+
+/// Probe for finding F16 (DESIGN.md): an in-place update may legally push the charged total above max_cost (C01), but the total
+/// is an i64: updating one of several residents to a cost near i64::MAX overflows `used` in SampledLFU::update
+#[test]
+fn huge_cost_update_keeps_the_worker_alive() {
+    if !only("huge_cost_update_keeps_the_worker_alive") { return; }
+    guarded("huge_cost_update_keeps_the_worker_alive", || {
+        let script = "Cache(max_cost=1000, internal cost on); insert(2, 20, 1); insert(3, 30, 1); wait(); insert(3, 31, i64::MAX) [update of a resident key]; wait(); get(2)".to_string();
+        let (tx, rx) = std::sync::mpsc::channel::<String>();
+        std::thread::spawn(move || {
+            let c: Cache<u64, u64, TransparentKeyBuilder<u64>> = Cache::builder(200, 1000)
+                .set_key_builder(TransparentKeyBuilder::<u64>::default()).finalize().unwrap();
+            let r = std::panic::catch_unwind(std::panic::AssertUnwindSafe(|| {
+                c.insert(2, 20, 1); c.insert(3, 30, 1); let w1 = c.wait().is_ok();
+                c.insert(3, 31, i64::MAX); let w2 = c.wait().is_ok();
+                let g2 = c.get(&2).map(|v| *v.value());
+                (w1, w2, g2)
+            }));
+            let msg = match r {
+                Err(_) => "the caller panicked".to_string(),
+                Ok((true, true, Some(20))) => "ok".to_string(),
+                Ok(x) => format!("(wait, wait, get(2)) = {:?}", x),
+            };
+            let _ = tx.send(msg);
+            let _ = c.close();
+        });
+        let verdict = rx.recv_timeout(Duration::from_secs(10)).unwrap_or_else(|_| "no answer within 10 s: the processor is gone and wait() blocks for ever".to_string());
+        if verdict != "ok" {
+            fail("huge_cost_update_keeps_the_worker_alive", "C20:pol.update.used-overflow", &["C20", "C01"], "SampledLFU::update", script, verdict,
+                 "(true, true, Some(20)): the worker is alive".into());
+        }
+    });
+}
+
+/// C16/C01: with internal cost on, the charge of an entry is its explicit cost plus size_of::<StoreItem<V>>() — for value types
+/// with padding as well (the expected overhead is computed here from the type, not read back from the store)
+#[test]
+fn internal_cost_is_the_size_of_a_stored_item() {
+    if !only("internal_cost_is_the_size_of_a_stored_item") { return; }
+    guarded("internal_cost_is_the_size_of_a_stored_item", || {
+        macro_rules! one { ($v:ty, $val:expr, $name:expr) => {{
+            let want = std::mem::size_of::<crate::store::StoreItem<$v>>() as i64;
+            let c: Cache<u64, $v, TransparentKeyBuilder<u64>> = Cache::builder(200, 100_000)
+                .set_key_builder(TransparentKeyBuilder::<u64>::default()).finalize().unwrap();
+            c.insert(1, $val, 7); c.wait().unwrap();
+            let got = c.policy.cost(&1);
+            let isz = c.store.item_size() as i64;
+            let _ = c.close();
+            if got != 7 + want || isz != want {
+                fail("internal_cost_is_the_size_of_a_stored_item", "C16:store.new.overhead-is-the-size-of-a-stored-item", &["C16", "C01", "C07", "C04"], "ShardedMap::with_validator_and_hasher",
+                     format!("Cache<u64, {}>(max_cost=100000, internal cost on); insert(1, _, cost 7); wait()", $name), format!("charged {}, item_size() = {}", got, isz), format!("7 + {} (size_of::<StoreItem<{}>>())", want, $name));
+                return;
+            }
+        }}; }
+        one!(u64, 1u64, "u64");
+        one!(u32, 1u32, "u32");
+        one!(u8, 1u8, "u8");
+        one!([u8; 3], [0u8; 3], "[u8; 3]");
+        one!([u64; 32], [0u64; 32], "[u64; 32]");
+    });
+}
+
+/// C20 (bounded guard for code no contract reaches: the processor's spawn loop, its ticker, the channels): every accepted
+/// configuration at the edges of its range yields a cache on which a small workload completes.  Runs in a helper thread with a
+/// deadline, so that a dead worker shows as a finding, not as a hung check.
+#[test]
+fn extreme_configurations_work() {
+    if !only("extreme_configurations_work") { return; }
+    guarded("extreme_configurations_work", || {
+        let configs: Vec<(&str, usize, i64, usize, usize, Duration, bool, bool)> = vec![
+            ("cleanup interval Duration::MAX", 100, 100, 64, 1024, Duration::MAX, true, true),
+            ("cleanup interval 1 ns", 100, 100, 64, 1024, Duration::from_nanos(1), false, false),
+            ("buffer_items 0, insert buffer 1", 100, 100, 0, 1, Duration::from_secs(1), true, false),
+            ("num_counters 1, max_cost 1", 1, 1, 1, 4, Duration::from_millis(5), false, true),
+            ("max_cost i64::MAX, num_counters 3", 3, i64::MAX, 7, 16, Duration::from_secs(3600), true, true),
+        ];
+        for (name, nc, mc, bi, bs, cd, metrics, ignore) in configs {
+            let script = format!("Cache::builder({}, {}).set_buffer_items({}).set_buffer_size({}).set_cleanup_duration({:?}).set_metrics({}).set_ignore_internal_cost({}) [{}]; insert x3; wait; get; update; insert_with_ttl; remove; wait; clear; insert; wait; close", nc, mc, bi, bs, cd, metrics, ignore, name);
+            let (tx, rx) = std::sync::mpsc::channel::<String>();
+            std::thread::spawn(move || {
+                let r = std::panic::catch_unwind(std::panic::AssertUnwindSafe(|| {
+                    /*WORKLOAD-BEGIN*/
+                    let c: Cache<u64, u64, TransparentKeyBuilder<u64>> = match Cache::builder(nc, mc)
+                        .set_key_builder(TransparentKeyBuilder::<u64>::default()).set_buffer_items(bi).set_buffer_size(bs)
+                        .set_cleanup_duration(cd).set_metrics(metrics).set_ignore_internal_cost(ignore).finalize() { Ok(c) => c, Err(e) => return format!("finalize refused an accepted configuration: {}", e) };
+                    // wait() needs a free slot of the insert buffer itself: retry for a while
+                    macro_rules! settle { ($what:expr) => {{ let mut ok = false; for _ in 0..200 { if c.wait().is_ok() { ok = true; break; } std::thread::sleep(Duration::from_millis(1)); } if !ok { return format!("wait() keeps failing after {}", $what); } }}; }
+                    for k in 0..3u64 { c.insert(k, k, 1); settle!("an insert"); }
+                    let _ = c.get(&0); let _ = c.get(&7);
+                    c.insert(0, 100, 1); settle!("an update");
+                    c.insert_with_ttl(5, 5, 1, Duration::from_millis(1)); settle!("a TTL insert");
+                    std::thread::sleep(Duration::from_millis(20));
+                    c.remove(&1); settle!("a remove");
+                    if c.clear().is_err() { return "clear() failed".into(); }
+                    settle!("clear()");
+                    c.insert(9, 9, 1); settle!("the last insert");
+                    if c.close().is_err() { return "close() failed".into(); }
+                    "ok".to_string()
+                    /*WORKLOAD-END*/
+                }));
+                let _ = tx.send(match r { Ok(s) => s, Err(_) => "the caller panicked".to_string() });
+            });
+            let verdict = rx.recv_timeout(Duration::from_secs(20)).unwrap_or_else(|_| "no answer within 20 s: a worker is gone and a call blocks for ever".to_string());
+            if verdict != "ok" {
+                fail("extreme_configurations_work", "C20:config.edges-yield-a-working-cache", &["C20", "C05"], "CacheProcessor::spawn", script, verdict, "every call completes".into());
+                return;
+            }
+        }
+    });
+}
+
 /// Probe for a schedule-dependent defect (DESIGN.md F10): `clear()` only *signals* the processor; if the processor has not yet
 /// consumed the signal when the caller's next insert is queued, the cleaner discards that insert (hands it to on_evict).
 #[test]
